@@ -716,7 +716,7 @@ func c19FieldNamesDecoded(c *Ctx, rule string) {
 			continue
 		}
 		n++
-		added := ci.Call.Args[1]
+		added := livePhiValue(ci.Call.Args[1], ci.Block()) // the words as they come out of a folded helper, error outcome tested away
 		name := relName(f) + "#append#" + itoa(n)
 		// (ii) the decoder's result, spread
 		if ex, ok := stripConv(added).(*ssa.Extract); ok && ex.Index == 0 {
